@@ -856,6 +856,35 @@ impl World {
                 self.hs[op.a as usize] = Some(h);
                 self.sh.handles[op.a as usize] = Some((op.b, op.c, slot));
             }
+            K::StashPair => {
+                let id = self.alloc_id(KNODE);
+                let r = self.with_mutate(|w, mc, root, m| {
+                    let set: DynamicRootSet = root.sets[op.c as usize].unwrap();
+                    let slots_of = |before: &[Result<usize, ()>], after: &[Result<usize, ()>]| -> u8 {
+                        let mut slot = 255u8;
+                        for (i, s) in after.iter().enumerate() {
+                            let was = before.get(i).map(|b| b.is_ok()).unwrap_or(false);
+                            if s.is_ok() && !was {
+                                slot = i as u8;
+                            }
+                        }
+                        slot
+                    };
+                    let s0: Vec<Result<usize, ()>> = set.verif_slots().0.iter().map(|x| x.as_ref().map(|_| 0usize).map_err(|_| ())).collect();
+                    let h1 = talloc::subject(|| set.stash::<Rootable![Node<'_>]>(mc, w.node(m, op.b)));
+                    let s1: Vec<Result<usize, ()>> = set.verif_slots().0.iter().map(|x| x.as_ref().map(|_| 0usize).map_err(|_| ())).collect();
+                    let g = new_node(mc, base + id as u32);
+                    let h2 = talloc::subject(|| set.stash::<Rootable![Node<'_>]>(mc, g));
+                    let s2: Vec<Result<usize, ()>> = set.verif_slots().0.iter().map(|x| x.as_ref().map(|_| 0usize).map_err(|_| ())).collect();
+                    Ok((h1, slots_of(&s0, &s1), h2, slots_of(&s1, &s2), Gc::as_ptr(g) as usize))
+                })?;
+                let Caught::Done((h1, slot1, h2, slot2, addr)) = r else { viol!("api.panic", "unexpected injected panic") };
+                self.addrs.push((addr, id));
+                self.hs[op.a as usize] = Some(h1);
+                self.sh.handles[op.a as usize] = Some((op.b, op.c, slot1));
+                self.hs[op.a as usize + 1] = Some(h2);
+                self.sh.handles[op.a as usize + 1] = Some((id, op.c, slot2));
+            }
             K::StashUp => {
                 let t = self.sh.objs[op.b as usize].w.expect("weak");
                 let r = self.with_mutate(|w, mc, root, m| {
